@@ -20,6 +20,9 @@ PAIRS = [
     ("class", "class_", False),
     ("_a", "a", False),
     ("HTTPCode", "httpCode", True),
+    ("from", "from_", False),
+    ("self", "self_", False),
+    ("kwargs", "kwargs_", True),
     ("fooBar", "fooBaz", True),
     ("alpha", "beta", False),
 ]
